@@ -140,9 +140,12 @@ def gen_callbacks(rng, tier):
         # a plugin of some kind that is switched off by configuration: never loaded, none of its callbacks runs
         off = {'name': 'x1', 'kind': rng.choice(['resource', 'decorator', 'logger', 'metric', 'span']),
                'switch': rng.choice(OFF), 'order': rng.choice([-5, 0, 4]), 'at': rng.randint(0, len(plugins))}
+    # how a failing shutdown() fails: an Exception, a BaseException, or the project's own IllegalStateException
+    # (a BaseException) raised when the plugin submits a last task after the task handler was closed
+    sd_cls = rng.choice(['exc', 'base', 'submit'])
     for sub in subsets:
         c = {'kind': 'callbacks', 'plugins': plugins, 'orders': orders, 'points': [list(p) for p in pts],
-             'faulty': sorted(sub), 'inp': rng.randint(1, 2)}
+             'faulty': sorted(sub), 'inp': rng.randint(1, 2), 'shutdown_cls': sd_cls}
         if off:
             c['off'] = off
         yield c
@@ -183,6 +186,8 @@ def corpus():
         cb([['s1', 'create_span']]),                    # D22
         cb([['s1', 'close']]),                          # D2
         cb([['r1', 'shutdown']]),                       # D19
+        dict(cb([['r1', 'shutdown'], ['s1', 'shutdown']]), shutdown_cls='base'),
+        dict(cb([['d1', 'shutdown']]), shutdown_cls='submit'),
         cb([['r1', 'resource'], ['d1', 'decorate'], ['lg1', 'log']]),
     ]
 
@@ -277,7 +282,7 @@ def run_callbacks_once(case, faulty_points):
     rec = fc_env.Recorder()
     classes = []
     for p in case['plugins']:
-        fail = {cb: 'exc' for (q, cb) in faulty_points if q == p}
+        fail = {cb: (case.get('shutdown_cls', 'exc') if cb == 'shutdown' else 'exc') for (q, cb) in faulty_points if q == p}
         classes.append(make_class(p, KIND_OF[p], rec, fail, case['orders'][p]))
     names = list(case['plugins'])
     off = case.get('off')
@@ -301,6 +306,7 @@ def run_callbacks_once(case, faulty_points):
     old_thr = threading.gettrace()
     try:
         deep = Deep(ConfigService(custom, tracepoints=TracepointConfigService()))
+        fc_env.SUBMIT['fn'] = deep.task_handler.submit_task     # for plugins that hand in a last task from shutdown()
         try:
             deep.start()
         except BaseException as e:      # noqa: B902
@@ -394,7 +400,7 @@ def run_impl(case):
     if case['kind'] == 'load':
         return run_load(case)
     g = G()
-    key = core.canon({k: case.get(k) for k in ('plugins', 'orders', 'inp', 'off')})
+    key = core.canon({k: case.get(k) for k in ('plugins', 'orders', 'inp', 'off')})       # (fault-free: no shutdown_cls)
     if key not in g['ref']:
         g['ref'][key] = in_thread(run_callbacks_once, case, [])
     pts = [tuple(case['points'][i]) for i in case['faulty']]
@@ -519,7 +525,8 @@ def model_request(case, obs):
         if fam == 'close':
             # the spans that exist: those whose creation did not fail
             members = [p for p in members if (p, 'create_span') not in pts]
-        faults = [{'site': site, 'loop': loop, 'iter': off + i, 'cls': 'exc'}
+        fcls = 'exc' if fam != 'shutdown' or case.get('shutdown_cls', 'exc') == 'exc' else 'base'
+        faults = [{'site': site, 'loop': loop, 'iter': off + i, 'cls': fcls}
                   for i, p in enumerate(members) if (p, fam) in pts]
         reqs.append({'op': 'exec', 'fn': fn, 'loop': loop, 'iters': {loop: off + len(members)}, 'default_cond': True,
                      'faults': faults, 'family': fam, 'members': members})
